@@ -1,5 +1,6 @@
 import PK.Properties.C15
 import PK.Properties.C15Replay
+import PK.Properties.C15Auto
 #print axioms PK.C15_append_only
 #print axioms PK.C15_run_suffix
 #print axioms PK.C15_apply_suffix
@@ -15,3 +16,5 @@ import PK.Properties.C15Replay
 #print axioms PK.sim_step
 #print axioms PK.replay_inv
 #print axioms PK.C15_replay
+#print axioms PK.twin_log
+#print axioms PK.C15_replay_auto
